@@ -12,6 +12,10 @@ CHECKS = {
   text="spec/ParamStyle.tla states the OpenAPI 3.0.3 style table (Table), the ambiguity rule (MustRefuse/MayRefuse) and round-trip/escaping obligations; TLC checks that the table composed with the cursor-machine transcription of uri's decoders round-trips every bounded value of every admitted row, and judges, for all 168 (location, style, explode, shape) combinations, the admission observed on the real parser+generator and every value pushed through the real public uri encoders/decoders (raw wire, logical wire, decoded value, panics).",
   note="Values bounded (primitives <=2/3 bytes over a 9-symbol delimiter alphabet, arrays <=3 items, objects <=2 fields) plus seeded random Unicode/byte members; for empty collections only 'no panic' is demanded (the table prescribes no form and [] / [\"\"] collide); percent-escaping of url.Values.Encode/PathEscape is environment. Trusted: TLC, Json module, net/url and net/http as carriers.",
   tech=TECH+"TLC-enumerated replay into the uri codecs and parser/generator admission with TLC-evaluated observation check"),
+ "C09": dict(cat="model_checking", ref="DESIGN.md §5 C09",
+  text="spec/Security.tla: abstract Allowed(reqs, cred) (handler iff some alternative fully accepted; both readings admitted when a credential is hard-rejected) and a transcription of generateSecurities, internal/bitset and the generated security block with byte/bit arithmetic. TLC checks refinement, arithmetic == set inclusion, index bounds and call order for all sequences of <=3 distinct alternatives over 3 schemes x 4^3 credential assignments plus byte-boundary structures over 9-20 schemes. Conformance: the same structures become operations of regenerated servers driven with a scripted SecurityHandler (handler flag, status, SecurityHandler call order judged by TLC), global/override/security:[] variants, not-implemented schemes under ignore_not_implemented must compile, and credentials attached by the regenerated client must reach the regenerated server's SecurityHandler unchanged.",
+  note="Schemes are apiKey-in-header for the structure part; client half covers apiKey header/query/cookie, basic, bearer, oauth2 scopes on seeded random core-domain credentials. Trusted: TLC, Json module, net/http(+httptest).",
+  tech=TECH+"TLC-enumerated requirement structures replayed into regenerated servers/clients with TLC-evaluated traces"),
  "C12": dict(cat="model_checking", ref="DESIGN.md §5 C12",
   text="TLC checks exhaustively that the pc-machine transcription of uri/normalize.go refines the abstract Canon/Invalid layer on all strings up to the bound, and the real function is bound to the same abstract layer by replaying every TLC-enumerated string (plus seeded random byte strings) through it and letting TLC judge each observed outcome; spec path keys are judged modulo the same equivalence through parser.Parse.",
   note="Bounded: strings up to length 6 (quick) / 7 (thorough) over a 9-symbol class alphabet, 7 / 9 over a 5-symbol one, random strings up to 64 bytes. Trusted: TLC, the CommunityModules Json reader, the byte<->int projection in prop/c12.",
